@@ -23,6 +23,9 @@ META = dict(
           "tau = ~H F - f. Velocity bias terms: the mobilizer coriolis acceleration is the velocity-dependent part of the exact time derivative of the velocity recursion (dual numbers) and the "
           "gyroscopic force is what Newton-Euler (differentiated spatial momentum about the moving body origin) requires beyond Mk A; H = H_PB_G from H_FM and HDot = d/dt H for the 8 frame "
           "specialisations <noR_FM,noX_MB,noR_PF> (calcParentToChildVelocityJacobianInGround[Dot]). "
+          "(L) the special node class RBNodeLoneParticle (RigidBodyNode_LoneParticle.cpp: Translation on Ground, identity frames, no children) is cut and transliterated the same way and "
+          "satisfies the same ID/FD/MI/MM/V/J node lemmas specialised to H = [0; 1], Ground at rest, no children, a = b = 0, in a scenario with uIndex = 3 != qIndex = 4 where every slot of every "
+          "array is a distinct symbol (reading or writing another mobilizer's slot or a q-slot for a u-quantity is a failed obligation; slot-frame obligations included), and the round trips through the transliterated drivers. "
           "(T, BOUNDED: ground + 1 body, ground + 2-body chain, ground + 2 bodies both on Ground, 1 symbolic mobility per body, passes run in the transliterated driver order): inverse(forward(f,F)) has zero residual, "
           "forward(f + inverse(udot*)) = udot*, residual = M udot + C(q,u) - f - ~J F, ~J is the adjoint of J and J u = V_GB of the velocity recursion. Over the reals (z3 QF_NRA). NOT decided: the induction over arbitrary trees (only the induction step = "
           "node lemmas and its instances n <= 2 are machine checked), branching in the composition, prescribed motion, constraints, the mobilizer-specific H/HDot and N (C03/C05), "
@@ -72,6 +75,9 @@ def common_evidence(ctx, B):
                "mobilizer-specific members called by realizeVelocity (calcQDot, calcAcrossJointVelocityJacobianDot, calcParentToChildVelocityJacobianInGroundDot) hand back symbolic H_FM-dot / HDot (C03's matter)")
     ctx.assume("driver order: the level loops, pointer bindings and temporaries are transliterated from SimbodyMatterSubsystemRep.cpp; the State/cache/stage plumbing around them is dropped (logged), "
                "cache objects are opaque tokens, rbNodeLevels is the level array of the harness tree; zero-length-argument conveniences and early returns are not modelled")
+    ctx.assume("RBNodeLoneParticle: `Vec3& x = Vec3::updAs/getAs(&a[k])` views are inlined and rewritten to explicit 3-slot reads/writes (logged rules); velocity-cache entries that were allocated but "
+               "not yet written hold arbitrary symbols; of realizeInstance only the statements initialising velocity-cache entries are kept (the others are logged as dropped); calcKineticEnergy and "
+               "realizeArticulatedBodyVelocityCache are the inherited RigidBodyNode members; the scenario fixes nodeNum = 2, uIndex = 3, qIndex = 4 (arrays of 3 bodies / 7 u / 8 q)")
     ctx.assume("let-abstraction: element terms of computed objects (P, D, DI, child outputs P+, z+, F) are replaced by fresh variables by substitution on the term DAG; "
                "symmetric positions are merged only after the symmetry obligation (N2, N3c) of the same unit; hypotheses about abstracted objects are previously listed obligations")
 
@@ -106,6 +112,14 @@ def main(ctx):
     for nb in (1, 2):
         unit(ctx, "tree%d.dyn" % nb, lambda nb=nb: (DL.tree_roundtrips(B, nb, "tree%d.dyn" % nb, "dyn"), DL.tree_dyn_extra(B, nb, "tree%d.dyn" % nb)))
     unit(ctx, "fork2.dyn", lambda: (DL.tree_roundtrips(B, 2, "fork2.dyn", "dyn", shape="fork"), DL.tree_dyn_extra(B, 2, "fork2.dyn", shape="fork")))
+    # the special node class RBNodeLoneParticle (Translation on Ground, identity frames, no children): the same node lemmas, specialised
+    unit(ctx, "lone.id", lambda: DL.lone_id_lemmas(B, "lone.id"))
+    unit(ctx, "lone.fd", lambda: DL.lone_fd_lemmas(B, "lone.fd"))
+    unit(ctx, "lone.mm", lambda: DL.lone_id_lemmas(B, "lone.mm", zero_bias=True))
+    unit(ctx, "lone.mi", lambda: DL.lone_fd_lemmas(B, "lone.mi", zero_bias=True))
+    unit(ctx, "lone.vel", lambda: DL.lone_vel_lemmas(B, "lone.vel"))
+    unit(ctx, "lone.jac", lambda: DL.lone_jac_lemmas(B, "lone.jac"))
+    unit(ctx, "lone.tree", lambda: DL.lone_roundtrips(B, "lone.tree"))
     for k, v in B.drivers.items():
         if v < 1:
             ctx.undecide("driver %s: no level loop transliterated" % k)
@@ -117,7 +131,10 @@ def main(ctx):
         "the mobilizer-specific parts: H_FM/HDot_FM, N/NDot/qdotdot (C03/C05 cover H_FM, HDot_FM, N per mobilizer); H_PB_G/HDot_PB_G are tied to H_FM/HDot_FM here (hpbg.*) for arbitrary "
         "(not necessarily orthonormal) R_GP, R_PF, R_FM, but the realize sequence that feeds them (calcBodyTransforms, X_GP recursion) is not enacted",
         "position kinematics: Phi = PhiMatrix(p_PB_G), Mk_G = SpatialInertia(mass, R_GB*com, G reexpressed) (calcJointIndependentKinematicsPos; C29 covers the mass-property operators)",
-        "realizeYOutward, the calcTreeEquivalentMobilityForces driver (its node member calcEquivalentJointForces is under a node lemma only), LoneParticle and Weld nodes, Custom mobilizers",
+        "realizeYOutward, the calcTreeEquivalentMobilityForces driver (its node member calcEquivalentJointForces is under a node lemma only), Weld nodes, Custom mobilizers",
+        "RBNodeLoneParticle: realizePosition (X_GB, Phi, Mk_G from q), the H_PB_G / H_FM storage, Y and A_GB entries written by realizeInstance (not read by the passes under contract), the prescribed-motion "
+        "branches, the factory condition of TranslationImpl::createRigidBodyNode (exercised natively only: replay trees with a lone particle after a Ball/Free); its P+ and the angular part of z+ "
+        "(read by nobody: the parent is Ground) agree with the generic node only when the body origin is the mass centre (FD3 is stated for the linear part, and in full under that hypothesis)",
         "the State/cache/stage plumbing of the SimbodyMatterSubsystemRep drivers (realized-flags, resize, zero-length argument conveniences, calcConstraintAccelerationErrors)",
         "dof = 4, 5 (FreeLine) and, in the quick tier, dof = 6: node lemmas run in the thorough tier only; Mat<N,N>::invert() for N > 3 (Lapack) is modelled by its defining equations",
         "float rounding; ill-conditioned D (the real invert() may throw); det D == 0"]
@@ -127,7 +144,7 @@ def main(ctx):
 
 
 _RUN = {}
-DYN_SRCS = ("RigidBodyNodeSpec.cpp", "RigidBodyNode.cpp", "RigidBodyNode_Weld.cpp", "RigidBodyNodeSpec_Derived.cpp", "SimbodyMatterSubsystemRep.cpp")
+DYN_SRCS = ("RigidBodyNodeSpec.cpp", "RigidBodyNode.cpp", "RigidBodyNode_Weld.cpp", "RigidBodyNode_LoneParticle.cpp", "RigidBodyNodeSpec_Derived.cpp", "SimbodyMatterSubsystemRep.cpp")
 
 
 def build_replay(ctx):
@@ -169,5 +186,8 @@ def replay(ctx, ob, checks="all"):
         args = ["seed=%d" % ctx.seed, "ntrees=60", "checks=" + checks]
         rc, o, e, t = run([exe] + args, 600)
         lines = o.strip().split("\n")
-        _RUN["res"] = (dict(cmd="c02_replay " + " ".join(args), output="\n".join(lines if len(lines) <= 14 else lines[:12] + ["..."] + lines[-1:]), stderr=e[-500:]), "REPRODUCED:" in o)
+        crashed = rc not in (0, -9) and "REPRODUCED" not in o      # the driver (dynamics sources of the CURRENT tree) died: on the pinned tree it terminates normally, so the abort itself is a failing input
+        if crashed:
+            lines.append("REPRODUCED: the native driver terminated abnormally (exit status %s) after the lines above: %s" % (rc, " ".join(e.split())[-200:]))
+        _RUN["res"] = (dict(cmd="c02_replay " + " ".join(args), output="\n".join(lines if len(lines) <= 14 else lines[:12] + ["..."] + lines[-1:]), stderr=e[-500:]), "REPRODUCED:" in o or crashed)
     return _RUN["res"]
